@@ -256,13 +256,21 @@ def registries():
     import django_components.perfutil.component as pc
     import django_components.perfutil.provide as pp
 
+    # (observation only; a container that a refactoring has renamed or removed is simply not observed - the
+    # behavioural oracles, weakref liveness and object growth, do not depend on these names)
+    def keys(mod, name):
+        try:
+            return sorted(map(str, getattr(mod, name, ())))
+        except Exception:
+            return []
+
     return {
-        "component_context_cache": sorted(pc.component_context_cache.keys()),
-        "component_renderer_cache": sorted(pc.component_renderer_cache.keys()),
-        "child_component_attrs": sorted(pc.child_component_attrs.keys()),
-        "provide_cache": sorted(pp.provide_cache.keys()),
-        "provide_references": sorted(pp.provide_references.keys()),
-        "all_reference_ids": sorted(pp.all_reference_ids),
+        "component_context_cache": keys(pc, "component_context_cache"),
+        "component_renderer_cache": keys(pc, "component_renderer_cache"),
+        "child_component_attrs": keys(pc, "child_component_attrs"),
+        "provide_cache": keys(pp, "provide_cache"),
+        "provide_references": keys(pp, "provide_references"),
+        "all_reference_ids": keys(pp, "all_reference_ids"),
     }
 
 
@@ -272,6 +280,8 @@ def registries_nonempty():
 
 def lru_wellformed(lru):
     """Structural invariant of util.cache.LRUCache; returns None or a description of the damage."""
+    if not all(hasattr(lru, a) for a in ("head", "tail", "cache", "maxsize")):
+        return None  # another implementation: only the behavioural oracles apply
     keys_fwd = []
     node = lru.head.next
     prev = lru.head
@@ -305,6 +315,8 @@ def lru_wellformed(lru):
 
 def lru_order(lru):
     out = []
+    if not hasattr(lru, "head"):
+        return out
     node = lru.head.next
     guard = len(lru.cache) + 5
     while node is not None and node is not lru.tail and guard > 0:
